@@ -16,7 +16,8 @@
 (***************************************************************************)
 EXTENDS EFCorpus, Json
 
-CONSTANT Tier
+CONSTANT Tier,
+         Seed      \* >= 1: shifts which part of a sampled family is taken (1 = the default sample)
 
 VARIABLE row
 vars == <<row>>
@@ -109,7 +110,7 @@ Next ==
                                     ELSE <<Field("Alpha", h1), Field("Beta", h2), Field("Gamma", Exact[third])>>
                  want == IF pick = 1 THEN h1[2] ELSE IF pick = 2 THEN h2[2] ELSE Exact[IF third = 0 THEN 1 ELSE third][2] IN
              /\ (third = 0 => pick < 3)
-             /\ (third # 0 => (Tier = "thorough" \/ (row.i + 2 * j + 3 * third) % 37 = 0))
+             /\ (third # 0 => (Tier = "thorough" \/ (row.i + 2 * j + 3 * third + Seed - 1) % 37 = 0))
              /\ (row.okind = "map" => MapOK(h1) /\ MapOK(h2) /\ (third = 0 \/ MapOK(Exact[IF third = 0 THEN 1 ELSE third])))
              /\ row' = MkRow("fields", <<Obj(row.okind, fs)>>, <<Ret(Ref(FName[pick]))>>, <<>>,
                              <<[o |-> 1, same |-> FALSE, exp |-> [out |-> want]]>>)
